@@ -132,13 +132,14 @@ def per_transition(chk, H, prop='C12'):
     return records, obs
 
 
-def body(chk):
+@common.part
+def kernels(chk):
     H = summ.Harness(chk)
     chk.assumptions += [
         'INV: every counter < 2^62 (no usize overflow in a run); a Skipped indicator for the scenario implies scenarios.skipped >= 1 '
         '(cardinality invariant of the map, assumed per transition, established by the BMC from the initial state)',
         'scenario.steps.last() and gherkin::Step == are opaque oracles (symbolic Booleans has_last / eq_last); a step may look like the last own step (same keyword type and text: Booleans same_ty / same_text, implied by eq_last) without being it',
-        'one scenario key; other scenarios covered by the frame + additivity obligations',
+        'one scenario key; other scenarios covered by the frame + additivity + key-separation obligations',
     ]
     records, obs = per_transition(chk, H, 'C12')
     # vacuity witnesses: each interesting event class is reachable
@@ -150,7 +151,22 @@ def body(chk):
     A = 3      # a scenario counted twice as retried needs three attempts
     NS = 3 if chk.tier == 'thorough' else 2
     summ_seq.sequence_obligations(chk, H, records, 'C12', attempts=A, steps=NS)
+
+
+@common.part
+def key_separation(chk):
+    summ.key_separation(chk, 'C12')
+
+
+@common.part
+def handle_event(chk):
     summ_event.handle_event_obligations(chk, 'C12')
+
+
+def body(chk):
+    kernels(chk)
+    key_separation(chk)
+    handle_event(chk)
 
 
 if __name__ == '__main__':
